@@ -59,3 +59,11 @@ Proof.
     apply (FG_run [1%N] [2%N] [] [] false true). constructor.
   - econstructor; [econstructor; [constructor|]|]; repeat constructor.
 Qed.
+
+(* every recorded faulty trace that the acceptor of suite S2 accepts IS a trace of this model,
+   so the theorems above apply to it *)
+From Shred Require Import FaultAccept.
+Theorem C14_faulty_acceptor_sound :
+  forall F l tl tr, NoDup (concat (concat l)) -> faccept_disp F l tl tr = true -> exists p, ftraces_disp F l tl tr p.
+Proof. exact faccept_sound. Qed.
+Print Assumptions C14_faulty_acceptor_sound.
